@@ -169,6 +169,15 @@ def field_values(name, w):
         if v is not None: vals |= {v, (v + 1) & m, (v - 1) & m}
     return sorted(vals)
 
+def field_values_wide(name, w):
+    """... plus every special value with one bit flipped"""
+    m = (1 << w) - 1
+    vals = set(field_values(name, w))
+    for table in (gen.MAX_VALID, gen.NOT_AVAILABLE):
+        v = gen._scaled(name, w, table)
+        if v is not None: vals |= {v ^ (1 << i) for i in range(w)}
+    return sorted(vals)
+
 def pairwise_cases(rng, tier, types=None):
     """every pair of fields of every layout at every pair of their special values (zero, one, the two largest,
     the not-available code, the largest meaningful value and their neighbours), the other fields random: any
@@ -228,6 +237,7 @@ def one_field_cases(rng, tier, types=None):
                        | {(s + 1) & m for s in gen.SENTINELS} | {(s - 1) & m for s in gen.SENTINELS}
                 if w <= 8: cand |= set(range(1 << w)) if tier != 'quick' or w <= 6 else set()
                 cand |= {1 << i for i in range(w)}
+                cand |= set(field_values_wide(name, w))        # the field's own special values, each also with one bit flipped
                 for _ in range(reps):
                     for v in sorted(cand):
                         for mode in ('zeros', 'ones', 'random', 'maxvalid', 'unavailable'):
@@ -429,6 +439,9 @@ def coord_cases(rng, tier):
             for s in (108600000, 54600000, 108600, 54600, 1023, 3600, 511, 63, 1022, 3599, 510, 62, 600, 600000, 10):
                 for d in (-1, 0, 1): cand |= {(s + d) & m, (-(s + d)) & m}
             for i in range(w): cand |= {1 << i, (1 << i) - 1, (1 << i) + 1, m ^ (1 << i)}
+            # every special value with one bit flipped (a comparison that ignores one bit, the sign bit included)
+            for s in (108600000, 54600000, 108600, 54600, 108000000, 54000000, 108000, 54000, 1023, 3600, 511, 63, 1022, 3599):
+                if s <= m: cand |= {s ^ (1 << i) for i in range(w)}
             if w <= 12 and tier != 'quick': cand |= set(range(1 << w))
             elif w <= 10: cand |= set(range(1 << w))
             exhaustive = w in (17, 18) and tier != 'quick'     # the 1/10-minute fields of types 17 and 27: every raw value
@@ -511,6 +524,18 @@ def unarmor_cases(rng, tier):
             out.append(U(rng.randrange(6), bytes([b]) * n))
         out.append(U(0, bytes([b]) * 4 + b'15M:Ih001'))
         out.append(U(rng.randrange(6), b'15M0' + bytes([b]) * 4 + b'1'))
+    # payloads that are text in some encoding: every two-byte UTF-8 sequence, a stride of the three- and four-byte
+    # ones, overlong and surrogate forms, UTF-16 / Latin-1 spellings — behind and in front of alphabet characters
+    def u8(cp):
+        try: return chr(cp).encode('utf-8')
+        except UnicodeEncodeError: return None
+    for cp in list(range(0x80, 0x800)) + list(range(0x800, 0x10000, 61)) + list(range(0x10000, 0x110000, 4093)):
+        e = u8(cp)
+        if e is None: continue
+        out.append(U(0, b'9' + e))
+        if cp % 7 == 0: out.append(U(rng.randrange(6), e + b'15M'))
+    for raw in (b'\xc0\xb1', b'\xe0\x80\xb1', b'\xed\xa0\xb1', b'\xf8\x88\x80\x80\xb1', b'1\x00', b'\x001', b'\xff\xfe1\x00', b'\xb1', b'\xe9'):
+        out.append(U(0, b'9' + raw)); out.append(U(0, raw + b'9'))
     # all strings up to length 2 over all bytes (length 2: boundary bytes x all bytes)
     for fill in range(6):
         out.append(U(fill, b''))
@@ -826,6 +851,22 @@ def checksum_cases(rng, tier):
             if v % 5 == 0:      # long digit runs: only the first eight digits are read
                 for fmt in (b'%08X', b'1%08X', b'%09X', b'F0%08X', b'%07X', b'%012X', b'1000%08x'):
                     hist(priors[v % 3], s[:star + 1] + fmt % v)
+    # long bodies (payload, channel or talker-side garbage makes no difference to the rule): every byte between the
+    # delimiter and the '*' counts, also the one at offset 255, 256, 384, 512, 4096 ...; right checksum, a checksum
+    # that is right for a prefix of the body only, and single-bit errors in the last bytes
+    A = gen.ALPHABET
+    for n in (200, 250, 255, 256, 257, 300, 370, 380, 383, 384, 385, 386, 400, 511, 512, 513, 600, 1000, 1023, 1024, 1025, 4095, 4096, 4097):
+        for where in ('payload', 'channel'):
+            filler = bytes(rng.choice(A) for _ in range(n))
+            s = gen.sentence(filler, 0) if where == 'payload' else gen.sentence(pay2[:28], 0, chan=filler)
+            star = s.rindex(b'*'); body = s[1:star]
+            hist([], s)
+            for cut in (255, 256, 383, 384, 385, 511, 512, 1024, 4096, 65535, 65536, len(body) - 1, len(body) - 2):
+                if 0 < cut < len(body):
+                    hist([], s[:star + 1] + b'%02X' % gen.checksum(body[:cut]))          # right for a prefix only
+            for back in (1, 2, 3, 20):
+                i = star - back
+                hist([], s[:i] + bytes([s[i] ^ 1]) + s[i:][1:])                            # an error near the end, checksum left as it was
     base = [gen.valid_sentence(rng) for _ in range(scale(tier, 60, 800))] + [f2] + tagged[:4]
     for s in base:
         for i in range(len(s)):
@@ -886,6 +927,14 @@ def random_history(rng, length):
                 frs = [x for pair in itertools.zip_longest(frs, other) for x in pair if x is not None]   # interleave groups
             elif rng.random() < 0.2:
                 pending.append(frs); continue
+            if rng.random() < 0.12:       # a fragment whose payload carries an arbitrary byte (checksum still right)
+                j = rng.randrange(len(frs)); f = frs[j].split(b',')
+                if len(f) == 7 and f[5]:
+                    k = rng.randrange(len(f[5])); b = rng.choice([0x80, 0xff, 0xc3, 0xe2, 0x7f, 0x20, 0x00, 0x58, 0x78, rng.getrandbits(8)])
+                    if b not in (0x2c, 0x2a, 0x0a, 0x0d):
+                        f[5] = f[5][:k] + bytes([b]) + f[5][k + 1:]
+                        body = b','.join(f)[1:].split(b'*')[0]
+                        frs[j] = frs[j][:1] + body + b'*%02X' % gen.checksum(body)
             lines += frs
         elif c < 0.7: lines.append(gen.valid_sentence(rng))
         elif c < 0.8: lines.append(gen.mutate(rng, gen.valid_sentence(rng)))
@@ -1070,6 +1119,23 @@ def cli_streams(rng, tier):
             out.append(b'\\' + b't' * n + b'\\' + a + b'\n' + b + b'\n')
             out.append(f1 + b'\n' + b'#' * n + f2 + b'\n' + a + b'\n')
             out.append(b'\x00' * n + b'\n' + a)
+    # a group with other traffic between its fragments: unfragmented sentences that carry the group's own sequence id
+    # (or another, or none), sentences that do not decode, rejected lines — none of them may touch the group
+    for _ in range(scale(tier, 200, 2000)):
+        pay, fill = gen.armor(gen.message_bits(rng, rng.choice([5, 8, 19, 21, 12])))
+        sid = rng.choice([None, 1, 5, 9])
+        frs = gen.fragment(rng, pay, fill, rng.choice([2, 2, 3, 4]), sid)
+        parts = []
+        for fr in frs:
+            parts.append(fr)
+            if fr is frs[-1]: break
+            for _k in range(rng.choice([0, 1, 1, 2])):
+                p2, f2_ = gen.armor(gen.message_bits(rng, rng.choice(gen.SUPPORTED)))
+                parts.append(rng.choice([gen.sentence(p2, f2_, sid=sid), gen.sentence(p2, f2_, sid=sid, chan=b'B'), gen.sentence(p2, f2_, sid=rng.choice([None, 2, 5])),
+                                         gen.undecodable_sentence(rng, None, sid=sid), gen.sentence(p2, f2_, sid=sid)[:-2] + b'zz', b'junk',
+                                         gen.sentence(b'9', 0, 3, 3, 77)]))
+        parts.append(v())
+        out.append(b'\n'.join(parts) + b'\n')
     for _ in range(scale(tier, 250, 5000)):
         n = rng.choice([1, 3, 10, 40])
         parts = []
